@@ -17,7 +17,7 @@ import (
 )
 
 type vgfTopStats struct {
-	uncached, emptied, fits, notFits, withSrc, afterImport int
+	uncached, emptied, fits, notFits, withSrc, afterImport, fitsEpoch, shrinks int
 }
 
 func (m *vgfM) cnt(r uint64) uint64 { return uint64(len(m.bits[r])) }
@@ -98,11 +98,26 @@ func vgfKeys(s map[uint64]struct{}) []uint64 {
 }
 
 func (m *vgfM) checkTopN(label string, st *vgfTopStats) {
-	if uint32(len(m.touched)) > m.cfg.CacheSize {
+	// "rows fit the cache": either no more rows than the cache holds were ever named on this fragment, or (wider) a
+	// recalculation found the cache holding at most CacheSize rows, the rows cached then plus the rows named since still
+	// fit, and every non-empty row was cached then or changed since (so it was admitted with threshold 1)
+	fitsEver := uint32(len(m.touched)) <= m.cfg.CacheSize
+	fitsEpoch := m.epochOn
+	if fitsEpoch {
+		for _, r := range m.nonEmptyRows() {
+			if _, ok := m.epochG[r]; !ok {
+				fitsEpoch = false
+			}
+		}
+	}
+	if !fitsEver && !fitsEpoch {
 		st.notFits++
 		return
 	}
 	st.fits++
+	if !fitsEver {
+		st.fitsEpoch++
+	}
 	// a bulk import recalculates the cache itself; otherwise the harness asks for the recalculation
 	if m.lastOp == "import" && rapid.Bool().Draw(m.t, label+".trustImportRecalc") {
 		st.afterImport++
@@ -197,11 +212,43 @@ func TestVerifC12_FragTop(t *testing.T) {
 		for i := 0; i < n; i++ {
 			l := fmt.Sprintf("s%d", i)
 			m.apply(vgfGenOp(t, l, cfg, ws))
-			switch rapid.SampledFrom([]string{"none", "ids", "ids", "ids", "topn", "reads"}).Draw(t, l+".q") {
+			switch rapid.SampledFrom([]string{"none", "ids", "ids", "ids", "topn", "topn", "reads", "epoch", "shrink"}).Draw(t, l+".q") {
 			case "ids":
 				m.checkTopIDs(l, st)
 			case "topn":
 				m.checkTopN(l, st)
+			case "epoch":
+				m.startEpoch()
+			case "shrink":
+				// empty all rows but a few through the import/store paths, then recalculate: the rows fit again
+				keep := rapid.IntRange(0, int(vgfMinU32(cfg.CacheSize, 4))).Draw(t, l+".keep")
+				via := rapid.SampledFrom([]string{"import", "roaring", "setRow"}).Draw(t, l+".via")
+				for i, r := range m.nonEmptyRows() {
+					if i < keep {
+						continue
+					}
+					switch {
+					case via == "setRow" && cfg.Kind == vgfSet:
+						m.apply(vgfOp{Name: "setRow", Row: r, Src: "none"})
+					case via == "roaring" && cfg.Kind == vgfSet:
+						cols := m.rowCols(r)
+						rows := make([]uint64, len(cols))
+						for j := range rows {
+							rows[j] = r
+						}
+						m.apply(vgfOp{Name: "roaring", Rows: rows, Cols: cols, Clear: true})
+					default:
+						cols := m.rowCols(r)
+						rows := make([]uint64, len(cols))
+						for j := range rows {
+							rows[j] = r
+						}
+						m.apply(vgfOp{Name: "import", Rows: rows, Cols: cols, Clear: true})
+					}
+				}
+				if m.startEpoch() {
+					st.shrinks++
+				}
 			case "reads":
 				m.checkSome(l)
 			}
@@ -213,11 +260,18 @@ func TestVerifC12_FragTop(t *testing.T) {
 		c.Key("c12", cfg.String(), m.hist)
 		c.Class("kind:"+cfg.Kind).Class("cache:%s/%d", cfg.Cache, cfg.CacheSize)
 		c.ClassIf(st.uncached > 0, "requestedRowNotInCache").ClassIf(st.emptied > 0, "requestedRowEmptied")
-		c.ClassIf(st.fits > 0, "topN:rowsFitCache").ClassIf(st.notFits > 0, "topN:skippedRowsDoNotFit").ClassIf(st.withSrc > 0, "withSrcRow").ClassIf(st.afterImport > 0, "topN:rightAfterBulkImport")
+		c.ClassIf(st.fits > 0, "topN:rowsFitCache").ClassIf(st.notFits > 0, "topN:skippedRowsDoNotFit").ClassIf(st.withSrc > 0, "withSrcRow").ClassIf(st.afterImport > 0, "topN:rightAfterBulkImport").ClassIf(st.fitsEpoch > 0, "topN:rowsFitAgainAfterOverfullCache").ClassIf(st.shrinks > 0, "rowsEmptiedThenRecalculated")
 		for p := range m.paths {
 			c.Class("path:" + p)
 		}
 		c.NT(st.uncached > 0 || st.emptied > 0)
 		c.Sample(map[string]interface{}{"cfg": cfg.String(), "history": m.hist})
 	})
+}
+
+func vgfMinU32(a uint32, b int) uint32 {
+	if a < uint32(b) {
+		return a
+	}
+	return uint32(b)
 }
